@@ -178,6 +178,8 @@ pub struct W {
 
 pub struct World {
     pub inner: Mutex<W>,
+    /// tells whether the pool's slots mutex is held right now (set once the pool exists)
+    pub lock_probe: Mutex<Option<Box<dyn Fn() -> bool + Send + Sync>>>,
 }
 
 impl W {
@@ -587,10 +589,26 @@ impl World {
                 c09_take_then_get: false,
                 c09_released_by_shrink_or_close: false,
             }),
+            lock_probe: Mutex::new(None),
         })
     }
     pub fn w(&self) -> std::sync::MutexGuard<'_, W> {
         lock(&self.inner)
+    }
+
+    /// Every call of the pool into user code is a schedule point, provided the pool
+    /// does not hold its lock there (a parked operation must never block the others).
+    pub fn cb_point(&self, label: &'static str) {
+        let free = {
+            let p = lock(&self.lock_probe);
+            match p.as_ref() {
+                Some(f) => !f(),
+                None => false,
+            }
+        };
+        if free {
+            deadpool::verif::point(label);
+        }
     }
 }
 
@@ -657,6 +675,7 @@ async fn scripted(
         world: world.clone(),
         call,
     };
+    world.cb_point("cb.call");
     let fin = match out {
         Out::Ok => Fin::Ok,
         Out::ErrMsg => Fin::ErrMsg,
@@ -718,6 +737,7 @@ fn scripted_sync(world: &Arc<World>, kind: CallKind, obj: Option<u32>, metrics: 
         world: world.clone(),
         call,
     };
+    world.cb_point("cb.call");
     let fin = match out {
         Out::Ok | Out::Never => Fin::Ok,
         Out::ErrMsg => Fin::ErrMsg,
@@ -792,6 +812,7 @@ impl Manager for Mgr {
 
     fn detach(&self, obj: &mut Obj) {
         self.world.w().on_detach(obj.id);
+        self.world.cb_point("cb.detach");
     }
 }
 
